@@ -21,12 +21,17 @@ type C11Case struct {
 	Burst   int  `json:"burst"`   // length of a transient burst
 	Multi   bool `json:"multi"`   // the faulted transaction also names the neighbour target
 	Preempt bool `json:"preempt"` // pre-emptive drawn schedule instead of FIFO
+	// Serializable: the faulted request asks for SERIALIZABLE isolation. Only used for real refusals under the
+	// FIFO schedule, where every request meets its predecessor finished: the shapes in which a successor has to
+	// WAIT for a SERIALIZABLE predecessor are the listed C09 findings F-serializable-*.
+	Serializable bool `json:"serializable,omitempty"`
 }
 
 func genC11(rt *rapid.T) C11Case {
 	c := C11Case{NTx: rapid.IntRange(3, 5).Draw(rt, "ntx"), Sync: rapid.IntRange(0, 1).Draw(rt, "sync") == 1, Burst: rapid.IntRange(1, 5).Draw(rt, "burst"),
 		Multi: rapid.IntRange(0, 2).Draw(rt, "multi") == 0, Preempt: rapid.IntRange(0, 3).Draw(rt, "preempt") == 0}
 	c.Pos = rapid.IntRange(0, c.NTx-1).Draw(rt, "pos")
+	c.Serializable = !c.Preempt && rapid.IntRange(0, 2).Draw(rt, "serializable") == 0
 	return c
 }
 
@@ -72,6 +77,7 @@ func c11Scenario(c C11Case, code codes.Code) (Scenario, string) {
 			switch kind {
 			case "refuse":
 				v = model.Str(fmt.Sprintf("REFUSE:%d", int(code)))
+				spec.Serializable = c.Serializable
 			case "transient":
 				var cs []int
 				for k := 0; k < c.Burst; k++ {
@@ -104,6 +110,9 @@ func runC11(c C11Case, x *vstat.Ctx) error {
 		x.NonTrivial("the faulted transaction has a successor on the same target and neighbours on another target")
 	}
 	x.Sample(map[string]any{"case": c, "codes": "all of 1..16, one world each"})
+	if c.Serializable {
+		x.Class("refused-request:SERIALIZABLE")
+	}
 	for code := codes.Code(1); code <= 16; code++ {
 		sc, kind := c11Scenario(c, code)
 		x.Class("code-kind:" + kind)
